@@ -22,6 +22,9 @@ class ModuleInfo(object):
             self.tree = ast.parse(self.source, filename=path)
         except SyntaxError as e:
             raise AnalysisError('cannot parse %s: %s' % (relpath, e))
+        if os.environ.get('HL7LINT_NOCANON') != '1':
+            from .canon import canonicalize
+            self.tree = canonicalize(self.tree)
         for node in ast.walk(self.tree):
             for child in ast.iter_child_nodes(node):
                 child._parent = node
